@@ -4,6 +4,8 @@ import (
 	"fmt"
 	"strings"
 
+	"verif/internal/hx"
+
 	"verif/internal/m3u8x"
 	"verif/internal/media"
 	"verif/internal/muxrun"
@@ -384,6 +386,28 @@ func C04(x *Ctx) {
 func C05(x *Ctx) {
 	x.prop = "C05"
 	c, h := x.C, x.H
+	// the playlists are advertised URIs too (the media playlists by the multivariant playlist, the
+	// multivariant playlist by the application): a player picks its parser by the content type
+	plType := func(what string, n int, r *hx.Resp) {
+		if r == nil || r.Status != 200 {
+			return
+		}
+		x.Stats.Add("C05.playlist_types_checked", 1)
+		ct := strings.ToLower(strings.TrimSpace(strings.Split(r.Header.Get("Content-Type"), ";")[0]))
+		if ct != "application/vnd.apple.mpegurl" && ct != "audio/mpegurl" {
+			x.fail("ctype", "ctype/playlist", "round %d: %s served with Content-Type %q", n, what, r.Header.Get("Content-Type"))
+		}
+	}
+	for _, r := range h.Rounds {
+		if r.MV != nil {
+			plType("the multivariant playlist", r.N, r.MV.Resp)
+		}
+		for _, id := range h.StreamIDs {
+			if so := r.Streams[id]; so != nil {
+				plType("media playlist "+id, r.N, so.Resp)
+			}
+		}
+	}
 	for _, n := range h.URIOrder {
 		u := h.URIs[n]
 		x.Stats.Add("C05.uris_checked", 1)
